@@ -42,12 +42,14 @@ pub fn write_cursor(shapes: &[Shape], explicit_finalize: bool) -> Result<(Vec<u8
     }
 }
 
-/// files that already exist at the path, longer than anything written in a case: a writer
+/// files that already exist at the path (usually longer than what a case writes): a writer
 /// created by path must replace them (C02: no trailing bytes)
 pub fn prepopulate(path: &Path) {
-    let junk: Vec<u8> = (0..200_000u32).map(|i| (i % 251) as u8).collect();
+    // (a few KB suffice: most files of the cases are shorter, and a writer that does not replace the
+    // old file then leaves a stale tail; kept small because the bytes travel through the traces)
+    let junk: Vec<u8> = (0..6_000u32).map(|i| (i % 251) as u8).collect();
     let _ = std::fs::write(path, &junk);
-    let _ = std::fs::write(path.with_extension("shx"), &junk[..50_000]);
+    let _ = std::fs::write(path.with_extension("shx"), &junk[..2_000]);
 }
 
 pub fn write_path(shapes: &[Shape], path: &Path) -> Result<(), String> {
